@@ -115,7 +115,9 @@ def run_apalache(module, args, timeout=600, spec_dir=SPEC):
     try:
         cmd = ["apalache-mc", "check", "--out-dir=" + os.path.join(tmp, "out")] + list(args) + [os.path.join(spec_dir, module + ".tla")]
         try:
-            p = subprocess.run(cmd, cwd=tmp, stdout=subprocess.PIPE, stderr=subprocess.STDOUT, timeout=timeout, text=True, errors="replace")
+            # the launcher makes its java.io.tmpdir with mktemp -t: keep it inside the run's own directory (removed below)
+            p = subprocess.run(cmd, cwd=tmp, stdout=subprocess.PIPE, stderr=subprocess.STDOUT, timeout=timeout, text=True, errors="replace",
+                               env=dict(os.environ, TMPDIR=tmp))
         except (OSError, subprocess.TimeoutExpired):
             return None
         if "The outcome is: NoError" in p.stdout:
